@@ -323,3 +323,4 @@ fn c08_locator_parse() {
         }
     }
 }
+
